@@ -3,6 +3,7 @@ import FV.IoSendSeq
 import FV.IoRecvRetry
 import FV.IoArb
 import FV.IoKinds
+import FV.IoAsyncSpec
 /-! # C09 — IO faults surface as errors; nothing is lost or duplicated by them -/
 namespace FV.Props
 open FV
@@ -129,4 +130,18 @@ theorem C09_session_faults_surface (ms : List Bytes) (st : SeqSt) (hp : st.poiso
 /-- non-vacuity: three messages; an error before the first byte of the second (not poisoned, the third is sent), then `Ok(0)` -/
 example : (sendSeq [[1,2], [3,4], [5]] ⟨[], false, [.accept 2, .fail 3, .accept 9, .zero]⟩).1 = [.ok, .failed, .ok] ∧
     (sendSeq [[1,2], [3,4], [5]] ⟨[], false, [.accept 2, .fail 3, .accept 9, .zero]⟩).2.sink = [1,2,5] := by decide
+
+/-- **C09 (a, b) for one async send.** `WriteAll` polled to completion across any pattern of `Pending`, from an unpoisoned sender: the
+sink has gained a prefix of the message and nothing else; `Ready(Ok(()))` — and equally a `poll_flush` that failed after the last byte
+— mean the whole message is in the sink and the sender is not poisoned; `Ok(0)` or a write error of any kind mean a *proper* prefix,
+and the sender is poisoned exactly when that prefix is non-empty, so nothing can follow a partial message; the run never ends in
+`Pending`. (`arun_eq_brun` carries the invariant of the suspension-free loop over to the polled future.) -/
+theorem C09_async_send_fault (msg : Bytes) (evs : List AEv) (sink0 : Bytes) :
+    ∃ j, j ≤ msg.length ∧ (arun msg evs ⟨0, sink0, false⟩).2.1.sink = sink0 ++ msg.take j ∧
+      ((arun msg evs ⟨0, sink0, false⟩).1 = .done → j = msg.length ∧ (arun msg evs ⟨0, sink0, false⟩).2.1.poisoned = false) ∧
+      ((∃ k, (arun msg evs ⟨0, sink0, false⟩).1 = .flushErr k) → j = msg.length ∧ (arun msg evs ⟨0, sink0, false⟩).2.1.poisoned = false) ∧
+      ((arun msg evs ⟨0, sink0, false⟩).1 = .brokenPipe ∨ (∃ k, (arun msg evs ⟨0, sink0, false⟩).1 = .err k) →
+        j < msg.length ∧ ((arun msg evs ⟨0, sink0, false⟩).2.1.poisoned = true ↔ j ≠ 0)) ∧
+      (arun msg evs ⟨0, sink0, false⟩).1 ≠ .pending :=
+  arun_send_fault msg evs sink0
 end FV.Props
